@@ -316,6 +316,8 @@ def build_model(tb: dict, cfg: dict, io=None, capital_perm=None, dict_order=None
             for lev_ in ("region", "sector"):
                 df_[lev_] = pd.Categorical(df_[lev_], categories=list(df_[lev_].unique()))
             s = df_.groupby(["region", "sector"], observed=True)["v"].sum()
+        if cap.get("drop") is not None:
+            s = s.drop(s.index[cap["drop"]])          # (malformed stream) an industry without a value
         kw["productive_capital_vector"] = s
     elif cap["kind"] == "dataframe":
         s = pd.DataFrame({"capital": cap["values"]}, index=ind, dtype="int64" if cap.get("int_dtype") and max(cap["values"]) < 1e15 else float)
@@ -324,6 +326,8 @@ def build_model(tb: dict, cfg: dict, io=None, capital_perm=None, dict_order=None
             random.Random(cap["shuffle"]).shuffle(capital_perm)
         if capital_perm is not None:
             s = s.iloc[capital_perm]
+        if cap.get("drop") is not None:
+            s = s.drop(s.index[cap["drop"]])
         if cap.get("as_row"):
             s = s.T
         kw["productive_capital_vector"] = s
